@@ -89,3 +89,101 @@ pub fn catch<F: FnOnce() -> R + std::panic::UnwindSafe, R>(f: F) -> Result<R, St
 pub fn seed_from_env() -> u64 {
     std::env::var("VERIF_SEED").ok().and_then(|s| s.parse::<i64>().ok()).unwrap_or(1) as u64
 }
+
+/// One DER TLV with a definite length at `*p`: (start, len) of its content; `*p` moves past it.
+fn der_tlv(b: &[u8], p: &mut usize, tag: u8) -> Option<(usize, usize)> {
+    if *b.get(*p)? != tag {
+        return None;
+    }
+    let l0 = *b.get(*p + 1)? as usize;
+    let (len, hdr) = if l0 < 0x80 {
+        (l0, 2)
+    } else {
+        let n = l0 & 0x7f;
+        let mut v = 0usize;
+        for k in 0..n {
+            v = (v << 8) | *b.get(*p + 2 + k)? as usize;
+        }
+        (v, 2 + n)
+    };
+    let start = *p + hdr;
+    if start + len > b.len() {
+        return None;
+    }
+    *p = start + len;
+    Some((start, len))
+}
+
+/// The sibling records of every node of a trie dictionary file in another order (mode 1: reversed, mode 2: rotated
+/// by one); a leaf record stays the first child.  The format does not require siblings to be sorted (the reader's
+/// structural validation accepts any order; TrieBuilder happens to write them ascending).
+pub fn permute_trie_siblings(bytes: &[u8], mode: u8) -> Option<Vec<u8>> {
+    if mode == 0 {
+        return Some(bytes.to_vec());
+    }
+    let mut p = 0;
+    let (ds, dl) = der_tlv(bytes, &mut p, 0x30)?;
+    let mut q = ds;
+    let doc_end = ds + dl;
+    der_tlv(&bytes[..doc_end], &mut q, 0x0c)?;
+    der_tlv(&bytes[..doc_end], &mut q, 0x02)?;
+    der_tlv(&bytes[..doc_end], &mut q, 0x30)?;
+    let (is, il) = der_tlv(&bytes[..doc_end], &mut q, 0x04)?;
+    let n = il / 8;
+    let rec = |b: &[u8], i: usize| -> (usize, usize, u16) {
+        let c = &b[is + 8 * i..is + 8 * i + 8];
+        (u32::from_be_bytes([c[0], c[1], c[2], c[3]]) as usize, u16::from_be_bytes([c[4], c[5]]) as usize, u16::from_be_bytes([c[6], c[7]]))
+    };
+    // the index is laid out breadth first (a node's child range starts where the previous node's ended: the reader
+    // checks it), so another sibling order means another layout: the tree is re-emitted breadth first with the
+    // children of every node in the new order; leaf records keep their data ranges, the phrase data stays in place
+    let recs: Vec<(usize, usize, u16)> = (0..n).map(|i| rec(bytes, i)).collect();
+    let mut newrecs: Vec<(usize, usize, u16)> = vec![(0, 0, 0); n];
+    let mut queue: std::collections::VecDeque<(usize, usize)> = std::collections::VecDeque::new();
+    if n == 0 {
+        return None;
+    }
+    queue.push_back((0, 0));
+    let mut next = 1usize;
+    let mut seen = 0usize;
+    while let Some((old, newi)) = queue.pop_front() {
+        seen += 1;
+        if seen > n {
+            return None;
+        }
+        let (cb, len, syl) = recs[old];
+        if old != 0 && syl == 0 {
+            newrecs[newi] = recs[old];
+            continue;
+        }
+        if len == 0 {
+            newrecs[newi] = recs[old];
+            continue;
+        }
+        if cb + len > n || next + len > n {
+            return None;
+        }
+        let first = if recs[cb].2 == 0 { 1 } else { 0 };
+        let mut kids: Vec<usize> = (cb..cb + len).collect();
+        if mode == 1 {
+            kids[first..].reverse();
+        } else if kids.len() - first >= 2 {
+            kids[first..].rotate_left(1);
+        }
+        newrecs[newi] = (next, len, syl);
+        for (j, k) in kids.iter().enumerate() {
+            queue.push_back((*k, next + j));
+        }
+        next += len;
+    }
+    if next != n {
+        return None;
+    }
+    let mut out = bytes.to_vec();
+    for (i, r) in newrecs.iter().enumerate() {
+        out[is + 8 * i..is + 8 * i + 4].copy_from_slice(&(r.0 as u32).to_be_bytes());
+        out[is + 8 * i + 4..is + 8 * i + 6].copy_from_slice(&(r.1 as u16).to_be_bytes());
+        out[is + 8 * i + 6..is + 8 * i + 8].copy_from_slice(&r.2.to_be_bytes());
+    }
+    Some(out)
+}
